@@ -53,7 +53,9 @@ def report_known_kani(prop, ev):
 
 
 def select(prop, tier, seed):
-    hs = [h for h in gen.harnesses_by_prop().get(prop, []) if tier == "thorough" or h.get("tier", "quick") == "quick"]
+    # tier=manual: harnesses kept for reference that do not finish within the memory / time caps of this sandbox (DESIGN §8)
+    hs = [h for h in gen.harnesses_by_prop().get(prop, []) if h.get("tier", "quick") != "manual"
+          and (tier == "thorough" or h.get("tier", "quick") == "quick")]
     rnd = random.Random(seed)
     hs = list(hs)
     rnd.shuffle(hs)  # VERIF_SEED only changes scheduling order; verdicts are seed independent
